@@ -94,6 +94,7 @@ def run(c, facts):
     import c09 as _c09
     R16 = c.rule('C07.R16', 'CHECK-TOTAL: a kind constraint is applied whenever its position exists, so that acceptance coincides with solvability of the kind constraints (shared with C01.R9)')
     c.shared(R16, _c01.r9_check_total, 'C01.R9', facts)
+    c.run(lambda c: I.unify_symmetric(c, facts, c.rule('C07.R19', 'UNIFY-SYMMETRIC: every two-sided case of unify() has its mirror, so the verdict does not depend on which side of an equation a tag stands')))
     R18 = c.rule('C07.R18', 'DECLARE-FIRST: every name of a module is declared - and a duplicate reported - before any use is resolved, so which error a program gets does not depend on where its declarations stand (shared with C08.R4)')
     import c08 as _c08
     c.shared(R18, _c08.r4_order, 'C08.R4', facts)
